@@ -14,7 +14,10 @@ Four sub-domains (case["mode"]):
             type / a key of another type / None; server offering 1-3 host key types.
  sshclient  SSHClient.connect(sock=...) with generated known_hosts lines (plain / hashed names;
             the looked-up name, the bare host for a non-default port, another port, another host;
-            the server's key / a different key of the same type / other types), system or local
+            the server's key / a different key of the same type / other types; every line in one of
+            the forms of the OpenSSH file format: "names type key", with a trailing comment, tab-separated,
+            or behind a marker - "@revoked ..." / "@cert-authority ..." - and optionally preceded by a comment
+            line, a blank line or a line with too few fields), system or local
             store, policy Reject / AutoAdd / Warning / custom accepting / custom raising / an AutoAdd
             subclass that records the key and then raises. A raising policy raises an exception of a
             GENERATED class (SSHException family, OSError family incl. socket errors, other builtins,
@@ -24,7 +27,7 @@ Four sub-domains (case["mode"]):
             Password / InMemoryPrivateKey / OnDiskPrivateKey / NoneAuth sources (1-2 of them);
             agent and ~/.ssh discovery are off.
  history    ONE SSHClient object (system store + user store loaded from generated known_hosts texts:
-            plain and hashed names of two hosts x three ports, 7 keys) living through a generated
+            plain and hashed names of two hosts x three ports, 7 keys, the same line forms) living through a generated
             sequence of 2-6 events: connect(host, port, server key set, policy, auth method) - every
             connect to a fresh server - and lookups on either HostKeys object (lookup / check / in /
             keys) with generated names. The model of "known" is the union of both stores plus what an
@@ -40,6 +43,14 @@ blob the server put on the wire - parsed from the server->client plaintext, not 
              the decrypted stream contains no 50 / 61 at all, and connect() raised;
  policy      host unknown, policy accepts: the bytes written before the policy callback returned
              contain no 50 / 61.
+Marker lines: only an ordinary line makes its key a known host key of the names on it. A line behind "@revoked" or
+"@cert-authority" never does: a host named only by marker lines is UNKNOWN (the policy decides; buckets end in
+":host-named-only-by-a-marker-line"), and a marker line's key is not among the known keys of a host that ordinary lines
+name. The application loads each file the way one does that carries on when a file is refused: an exception from
+load_host_keys / load_system_host_keys is tolerated for a file that contains a marker line (the tree under test raises
+InvalidHostKey at such a line and keeps the lines before it); which of the ORDINARY lines of such a file count is then
+implementation-defined, so when only such lines name the host the client's own behaviour selects the clause (policy
+consulted = treated as unknown; not consulted = treated as known, and then the presented key must be one of theirs).
 Vacuity guard: accepted configurations must show a type 50 in an encrypted epoch.
 """
 import base64
@@ -63,11 +74,12 @@ RULE = (
     "hypothesis-generated configurations in four sub-domains: (lifecycle) auth method x transport class x handshake stage "
     "(9 stages, the link holding back the server's chunks); (connect) server host key set x hostkey argument in "
     "{same, sibling of same type, other type, none} x auth method; (sshclient) server host key set x port x 0..4 known_hosts lines "
-    "(name kind x hashed x key) x store x 6 policies (Reject, AutoAdd, Warning, accepting, raising, AutoAdd-then-raising; a raising policy "
+    "(name kind x hashed x key x line form: plain / trailing comment / tab-separated / @revoked marker / @cert-authority marker, x preceding "
+    "comment / blank / short line; a marker line never makes a host known) x store x 6 policies (Reject, AutoAdd, Warning, accepting, raising, AutoAdd-then-raising; a raising policy "
     "raises a generated exception class: 17 bases from the SSHException / OSError / other-builtin families, itself or a fresh subclass, "
     "3 argument shapes) x 11 ways of supplying the credentials (password=, pkey=, key_filename= path or list, combinations, auth_strategy= "
     "with Password / InMemoryPrivateKey / OnDiskPrivateKey / NoneAuth sources); (history) one SSHClient with a system and a user store "
-    "(0..3 lines each: 1-2 names of 2 hosts x 3 ports, plain or hashed, 7 keys) driven through 2..6 events in generated order - "
+    "(0..3 lines each: 1-2 names of 2 hosts x 3 ports, plain or hashed, 7 keys, the same line forms incl. marker lines) driven through 2..6 events in generated order - "
     "connects (host x port x server key set x policy (+ exception class) x credential source, each to a fresh server) and HostKeys lookups (4 APIs x store x name) - "
     "with the oracle evaluated per connect against the union of both stores plus earlier AutoAdd additions; quick enumerates all lifecycle stage x method x class "
     "combinations; non-trivial = the model forbids sending (mismatch / rejected unknown host), or the auth call happens before "
@@ -160,11 +172,21 @@ def _with_exc(d):
     """Adds the generated exception class to a configuration whose policy rejects by raising."""
     return exc_st.map(lambda e: dict(d, exc=e)) if d["policy"] in RAISING else st.just(d)
 
+# the line forms of the OpenSSH known_hosts format (sshd(8), SSH_KNOWN_HOSTS FILE FORMAT): "names type key", the same with a
+# trailing comment or tab-separated, and lines starting with a marker - "@revoked names type key" (the key must never be
+# accepted for these names) and "@cert-authority names type key" (the key is a CA key, not a host key). A marker line
+# never makes its key a known, accepted host key of the host. "before": what stands on the line before the entry.
+MARKERS = ("revoked", "cert-authority")
+FORMS = ["plain"] * 8 + ["comment", "tab"] + list(MARKERS)
+form_st = st.sampled_from(FORMS)
+before_st = st.sampled_from([None] * 6 + ["comment", "blank", "too-few-fields"])
 entry_st = st.fixed_dictionaries(
     {
         "names": st.lists(st.sampled_from(["exact", "exact", "bare", "otherport", "otherhost"]), min_size=1, max_size=2, unique=True),
         "hashed": st.booleans(),
         "key": st.sampled_from(ALL_KEYS),
+        "form": form_st,
+        "before": before_st,
     }
 )
 sshclient_st = st.fixed_dictionaries(
@@ -184,7 +206,7 @@ HOSTS = [HOST, OTHERHOST]
 CONNECT_PORTS = [22, 2222]
 ENTRY_PORTS = [22, 2222, 2200]
 name_st = st.tuples(st.integers(0, len(HOSTS) - 1), st.sampled_from(ENTRY_PORTS)).map(list)
-hentry_st = st.fixed_dictionaries({"names": st.lists(name_st, min_size=1, max_size=2, unique_by=tuple), "hashed": st.booleans(), "key": st.sampled_from(ALL_KEYS + SERVER_KEY_TYPES)})
+hentry_st = st.fixed_dictionaries({"names": st.lists(name_st, min_size=1, max_size=2, unique_by=tuple), "hashed": st.booleans(), "key": st.sampled_from(ALL_KEYS + SERVER_KEY_TYPES), "form": form_st, "before": before_st})
 connect_ev = st.fixed_dictionaries(
     {
         "op": st.just("connect"),
@@ -587,15 +609,55 @@ def hash_name(name, salt):
     return "|1|%s|%s" % (base64.b64encode(salt).decode(), base64.b64encode(mac).decode())
 
 
+def is_marker(e):
+    """A known_hosts entry written as a marker line (older cases carry no "form": plain)."""
+    return e.get("form") in MARKERS
+
+
+def entry_lines(e, names):
+    """The line(s) of the known_hosts file for one generated entry (names already plain or hashed)."""
+    blob = A.pub_blob(e["key"])
+    fields = [",".join(names), R.Reader(blob).string().decode(), base64.b64encode(blob).decode()]
+    form = e.get("form") or "plain"
+    line = ("\t" if form == "tab" else " ").join(fields)
+    if form == "comment":
+        line += " verif@%s added 2026-09-22" % OTHERHOST
+    elif form in MARKERS:
+        line = "@%s %s" % (form, line)
+    pre = {None: [], "comment": ["# %s (old key, see ticket 4711)" % names[0]], "blank": [""], "too-few-fields": ["%s %s" % (names[0], fields[1])]}[e.get("before")]
+    return pre + [line]
+
+
+def line_classes(entries, classes):
+    for e in entries:
+        classes.add("known_hosts-line:" + (("@" + e["form"]) if is_marker(e) else (e.get("form") or "plain")) + (":hashed-names" if is_marker(e) and e["hashed"] else ""))
+        if e.get("before"):
+            classes.add("known_hosts-line-preceded-by:" + e["before"])
+
+
+def load_store(load, path, entries, classes):
+    """Loads one known_hosts file the way an application does that carries on when a file is refused. A file without
+    marker lines must load. Returns the exception (or None): what an SSHClient knows from a file whose loading raised
+    half-way is implementation-defined (the tree under test keeps the lines before the one it stumbled over)."""
+    try:
+        load(path)
+    except Exception as e:
+        if not any(is_marker(x) for x in entries):
+            raise core.HarnessError("known_hosts file without marker lines refused: %r (entries %r)" % (e, entries))
+        classes.add("known_hosts-with-marker-line:load-raised:" + type(e).__name__)
+        return e
+    if any(is_marker(x) for x in entries):
+        classes.add("known_hosts-with-marker-line:loaded")
+    return None
+
+
 def known_hosts_text(case):
     lines = []
     for i, e in enumerate(case["entries"]):
         names = entry_names(e["names"], case["port"])
         if e["hashed"]:
             names = [hash_name(n, hashlib.sha1(("salt-%d-%s" % (i, n)).encode()).digest()) for n in names]
-        blob = A.pub_blob(e["key"])
-        ktype = R.Reader(blob).string().decode()
-        lines.append("%s %s %s" % (",".join(names), ktype, base64.b64encode(blob).decode()))
+        lines += entry_lines(e, names)
     return "\n".join(lines) + ("\n" if lines else "")
 
 
@@ -617,10 +679,8 @@ def run_sshclient(ctx, case, classes):
         path = os.path.join(ctx.tmpdir(), "known_hosts_%d" % ctx.evaluations)
         with open(path, "w") as f:
             f.write(known_hosts_text(case))
-        if case["store"] == "system":
-            client.load_system_host_keys(path)
-        else:
-            client.load_host_keys(path)
+        load_exc = load_store(client.load_system_host_keys if case["store"] == "system" else client.load_host_keys, path, case["entries"], classes)
+        line_classes(case["entries"], classes)
         client.set_missing_host_key_policy(policy)
         start_server(ts, good_server(case))
         how = how_of(case)
@@ -636,8 +696,22 @@ def run_sshclient(ctx, case, classes):
         settle(link, tc, ts)
         # ---- model
         want = lookup_name(HOST, case["port"])
-        matching = [e for e in case["entries"] if want in entry_names(e["names"], case["port"])]
+        named = [e for e in case["entries"] if want in entry_names(e["names"], case["port"])]
+        # only ordinary lines make a key a known host key; a marker line (@revoked / @cert-authority) never does
+        matching = [e for e in named if not is_marker(e)]
         presented = presented_key(link)
+        marker_only = ""
+        for e in named:
+            if is_marker(e):
+                classes.add("marker-line-names-the-host:@%s:%s" % (e["form"], "with-the-presented-key" if A.pub_blob(e["key"]) == presented else "with-another-key"))
+                if not matching:
+                    marker_only = ":host-named-only-by-a-marker-line"
+        if matching and load_exc is not None:
+            # the file was refused half-way: whether its ordinary lines count is implementation-defined. The client's own
+            # behaviour decides which clause applies: it consulted the policy = it treats the host as unknown
+            classes.add("known-ordinary-line-in-a-refused-file:treated-as-" + ("unknown" if "called" in marks else "known"))
+            if "called" in marks:
+                matching = []
         forbidden = None
         policy_mark = None
         if matching:
@@ -646,14 +720,14 @@ def run_sshclient(ctx, case, classes):
             classes.add("known:" + ("mismatch" if forbidden else "match"))
         else:
             if pol in ("reject",) + RAISING:
-                forbidden = "unknown-host-policy-" + pol
+                forbidden = "unknown-host-policy-" + pol + marker_only
                 if pol in RAISING:
                     classes.add("policy-raises:" + exc_class(case.get("exc")))
             else:
                 policy_mark = marks.get("n")
                 if policy_mark is None and raised is None:
                     # accepted without the policy ever being consulted
-                    ctx.violation("policy-not-consulted-for-unknown-host", pol, case, "host unknown to the client (no known_hosts line for %r) but missing_host_key() was never called and connect() succeeded" % want)
+                    ctx.violation("policy-not-consulted-for-unknown-host", pol + marker_only, case, "host unknown to the client (no known_hosts line for %r) but missing_host_key() was never called and connect() succeeded" % want)
                     return True
                 if policy_mark is None:
                     policy_mark = 0
@@ -693,9 +767,7 @@ def store_text(entries, tag):
         names = [abs_name(n) for n in e["names"]]
         if e["hashed"]:
             names = [hash_name(n, hashlib.sha1(("salt-%s-%d-%s" % (tag, i, n)).encode()).digest()) for n in names]
-        blob = A.pub_blob(e["key"])
-        ktype = R.Reader(blob).string().decode()
-        lines.append("%s %s %s" % (",".join(names), ktype, base64.b64encode(blob).decode()))
+        lines += entry_lines(e, names)
     return "\n".join(lines) + ("\n" if lines else "")
 
 
@@ -759,11 +831,17 @@ def execute_history(ctx, case, classes):
         paths[tag] = os.path.join(d, "kh_%s_%d_%d" % (tag, ctx.evaluations, threading.get_ident()))
         with open(paths[tag], "w") as f:
             f.write(store_text(case["stores"][tag], tag))
-    client.load_system_host_keys(paths["system"])
-    client.load_host_keys(paths["user"])
+    refused = {
+        "system": load_store(client.load_system_host_keys, paths["system"], case["stores"]["system"], classes) is not None,
+        "user": load_store(client.load_host_keys, paths["user"], case["stores"]["user"], classes) is not None,
+    }
+    for tag in ("system", "user"):
+        line_classes(case["stores"][tag], classes)
     stores = {"system": client._system_host_keys, "user": client.get_host_keys()}
-    # model of "known to this SSHClient": (plain names, key blob) of every line of both stores, plus AutoAdd additions
-    known = [(set(abs_name(n) for n in e["names"]), A.pub_blob(e["key"])) for tag in ("system", "user") for e in case["stores"][tag]]
+    # model of "known to this SSHClient": (plain names, key blob, sure) of every ORDINARY line of both stores (a marker line
+    # never makes its key a known host key), plus AutoAdd additions; sure=False: the line stands in a file whose loading raised
+    known = [(set(abs_name(n) for n in e["names"]), A.pub_blob(e["key"]), not refused[tag]) for tag in ("system", "user") for e in case["stores"][tag] if not is_marker(e)]
+    marked = [(set(abs_name(n) for n in e["names"]), A.pub_blob(e["key"]), e["form"]) for tag in ("system", "user") for e in case["stores"][tag] if is_marker(e)]
     hashed_in = {tag: any(e["hashed"] for e in case["stores"][tag]) for tag in ("system", "user")}
     names_seen = {"system": set(), "user": set()}  # names each HostKeys object has been asked about so far
     if case["stores"]["system"] and case["stores"]["user"]:
@@ -821,8 +899,20 @@ def execute_history(ctx, case, classes):
                     tc = None
                 settle(link, tc, ts)
                 # ---- model, for this connect
-                matching = [blob for names, blob in known if want in names]
+                matching = [blob for names, blob, sure in known if want in names]
                 presented = presented_key(link)
+                marker_only = ""
+                for names, blob, form in marked:
+                    if want in names:
+                        classes.add("marker-line-names-the-host:@%s:%s" % (form, "with-the-presented-key" if blob == presented else "with-another-key"))
+                        if not matching:
+                            marker_only = ":host-named-only-by-a-marker-line"
+                if matching and not any(sure for names, blob, sure in known if want in names):
+                    # every ordinary line naming the host stands in a file that was refused half-way: the client's own
+                    # behaviour decides which clause applies (it consulted the policy = it treats the host as unknown)
+                    classes.add("known-ordinary-line-in-a-refused-file:treated-as-" + ("unknown" if "called" in marks else "known"))
+                    if "called" in marks:
+                        matching = []
                 forbidden = None
                 policy_mark = None
                 pol = ev["policy"]
@@ -834,19 +924,19 @@ def execute_history(ctx, case, classes):
                         classes.add("history:known-through-earlier-autoadd")
                 else:
                     if pol in ("reject",) + RAISING:
-                        forbidden = "unknown-host-policy-" + pol
+                        forbidden = "unknown-host-policy-" + pol + marker_only
                         if pol in RAISING:
                             classes.add("policy-raises:" + exc_class(ev.get("exc")))
                         if pol == "autoadd-then-raise" and "called" in marks and presented is not None:
                             # the refusing policy recorded the key first: the host is known to this client from now on
-                            known.append(({want}, presented))
+                            known.append(({want}, presented, True))
                             auto.add(want)
                     else:
                         policy_mark = marks.get("n")
                         if policy_mark is None and raised is None:
                             out["violation"] = (
                                 "policy-not-consulted-for-unknown-host",
-                                "history:" + pol,
+                                "history:" + pol + marker_only,
                                 "event %d: host unknown to the client (no known_hosts line of either store, nor an earlier AutoAdd, names %r) but missing_host_key() was never called and connect() succeeded" % (i, want),
                             )
                             return out
@@ -854,7 +944,7 @@ def execute_history(ctx, case, classes):
                             policy_mark = 0
                         out["nontrivial"] = True
                         if pol == "autoadd" and "called" in marks and presented is not None:
-                            known.append(({want}, presented))
+                            known.append(({want}, presented, True))
                             auto.add(want)
                     classes.add("history:unknown:" + pol)
                 if forbidden:
@@ -954,7 +1044,8 @@ def enumerated():
 def run(ctx):
     ctx.set_budget(75, 780)
     ctx.assume("a SERVICE_REQUEST sent before the client's NEWKEYS counts as starting the authentication protocol in plaintext (a conforming client never does that)")
-    ctx.assume("'known to SSHClient' = a known_hosts line whose (plain or hashed) name equals the host, or [host]:port for a non-default port")
+    ctx.assume("'known to SSHClient' = an ordinary known_hosts line (not one behind an @revoked / @cert-authority marker) whose (plain or hashed) name equals the host, or [host]:port for a non-default port")
+    ctx.assume("an application carries on when loading a known_hosts file that contains marker lines raises; which ordinary lines of such a file count is then implementation-defined")
     enum = [c for i, c in enumerate(enumerated()) if i % ctx.nworkers == ctx.worker]
     for c in enum:
         if ctx.out_of_time():
